@@ -419,6 +419,30 @@ struct Guard {
     }
 };
 
+// like Guard, but its move constructor throws when the object is moved while the pool mutex is held, i.e. exactly at
+// the _queue.push() inside enqueue(): the push fails, the exception leaves run_detached(), the callable must still be
+// destroyed (in the caller)
+struct move_thrown {};
+struct TGuard {
+    Rec *r;
+    bool done = false;
+    explicit TGuard(Rec *x) : r(x) {}
+    TGuard(TGuard &&o) {
+        if (pool_locked()) throw move_thrown{};
+        r = o.r;
+        done = o.done;
+        o.r = nullptr;
+    }
+    TGuard(const TGuard &) = delete;
+    ~TGuard() {
+        if (r && !done) on_cancel(r);
+    }
+    void run() {
+        done = true;
+        on_run(r);
+    }
+};
+
 struct Grab {   // suspends and leaves the handle in the record
     Rec *r;
     bool await_ready() noexcept { return false; }
@@ -505,6 +529,12 @@ static void submit(Rec *r) {
             break;
         }
         case 5: r->fut.reset(new future<int>(g_pool->run(async_job(Guard(r), r)))); break;
+        case 6:
+            try {
+                g_pool->run_detached([g = TGuard(r)]() mutable { g.run(); });
+            } catch (const move_thrown &) {
+            }
+            break;
     }
     t_pending.erase(std::remove(t_pending.begin(), t_pending.end(), r), t_pending.end());
 }
@@ -551,7 +581,7 @@ static void run_case(const vh::Case &cs) {
     std::vector<long> sched;
     long nk = 0;
     std::vector<std::pair<Rec *, long>> susp_of;
-    auto kind_ok = [](long k) { return k >= 0 && k <= 5; };
+    auto kind_ok = [](long k) { return k >= 0 && k <= 6; };   // 6 (top level only): run_detached of a callable whose move throws
     auto new_rec = [&](long label, long kind) {
         recs.emplace_back(new Rec());
         recs.back()->label = label;
@@ -724,7 +754,7 @@ static void run_case(const vh::Case &cs) {
         switch (r->kind) {
             case 0: case 1: case 4: ws = r->fin; break;
             case 2: case 5: ws = fut_state(r->fut); break;
-            case 3: ws = r->ran ? 1 : (r->canc ? 2 : 0); break;
+            case 3: case 6: ws = r->ran ? 1 : (r->canc ? 2 : 0); break;
         }
         vh::print_obs({200, r->label, r->kind, r->ran, r->canc, ws, r->ran_on});
     }
